@@ -251,7 +251,9 @@ pub fn dump<S: ChainStore>(s: &S, ids: &Ids, genesis_difficulty: &ckb_types::U25
         let (_, bs) = ids.b(&Byte32::from_slice(v.as_ref()).unwrap());
         d.put("meta", vec![0], format!("tip:{}", bs));
     }
-    if let Some(e) = s.get_current_epoch_ext() {
+    // the raw META row (Snapshot::get_current_epoch_ext answers from memory instead)
+    if let Some(raw) = s.get(COLUMN_META, META_CURRENT_EPOCH_KEY) {
+        let e: ckb_types::core::EpochExt = packed::EpochExtReader::from_slice_should_be_ok(raw.as_ref()).into();
         let (_, ks) = ids.b(&e.last_block_hash_in_previous_epoch());
         d.put("meta", vec![1], format!("cur:{}/{}/{}/{}", e.number(), e.start_number(), e.length(), ks));
     }
@@ -369,6 +371,7 @@ pub struct Exec<'a> {
     gdiff: ckb_types::U256,
     /// (snapshot, dump line at publication time) after every state op
     snaps: Vec<(Arc<Snapshot>, String)>,
+    truncated: bool,
     reader: Option<Reader>,
     pub reorg_depths: BTreeSet<u64>,
     pub stale_epnum_seen: bool,
@@ -388,6 +391,7 @@ impl<'a> Exec<'a> {
             atxs: HashMap::new(),
             gdiff: ckb_types::U256::one(),
             snaps: vec![],
+            truncated: false,
             reader: None,
             reorg_depths: BTreeSet::new(),
             stale_epnum_seen: false,
@@ -465,7 +469,15 @@ impl<'a> Exec<'a> {
         if mmr_node != mmr_rows(rs, tip.number()) {
             fails.push(("mmr-neq-replay".to_string(), format!("tip number {}", tip.number())));
         }
+        // the snapshot's in-memory tip / epoch (what the node uses as "current epoch")
+        {
+            let want = rs.get_current_epoch_ext().expect("replay epoch");
+            if snap.epoch_ext() != &want {
+                fails.push(("snapshot-inmem-epoch-neq-replay".to_string(), format!("snapshot epoch {} replay {}", snap.epoch_ext().number(), want.number())));
+            }
+        }
         for (c, t) in fails {
+            let c = if c == "view-meta-neq-replay" && t.contains("cur:") && self.truncated { "current-epoch-row-stale-after-truncate".to_string() } else { c };
             if c == "epoch-number-row-neq-replay" {
                 self.stale_epnum_seen = true;
                 // observable effect: the epoch the node reports for that number is not the main chain's
@@ -484,7 +496,7 @@ impl<'a> Exec<'a> {
                 self.out.oracle_fail(&c, &t);
             }
         }
-        self.snaps.push((snap, line.clone()));
+        self.snaps.push((snap, sd.line()));
         line
     }
 
@@ -494,7 +506,9 @@ impl<'a> Exec<'a> {
         let rs = b.replay_store(&s.tip_hash());
         let rd = dump(rs, &self.ids, &self.gdiff);
         for (c, t) in compare_with_replay(&d, &rd) {
-            if c == "epoch-number-row-neq-replay" {
+            if c == "view-meta-neq-replay" && t.contains("cur:") && self.truncated {
+                self.out.oracle_fail("current-epoch-row-stale-after-truncate", &format!("({}) {}", what, t));
+            } else if c == "epoch-number-row-neq-replay" {
                 self.out.oracle_fail(&c, &format!("({}) {}", what, t));
             } else {
                 self.out.oracle_fail(&format!("{}-{}", what, c), &t);
@@ -539,6 +553,7 @@ impl<'a> Exec<'a> {
         }
         self.builder.take();
         self.ids = Ids::default();
+        self.truncated = false;
         self.ablocks.clear();
         self.atxs.clear();
         let _ = std::fs::remove_dir_all(self.base.join(format!("case-{}", self.case_no)));
@@ -680,6 +695,7 @@ impl<'a> Exec<'a> {
                 let id: u64 = t[1].parse().unwrap();
                 let h = self.ids.blkv.get(&id).expect("block known").hash();
                 let r = self.node.as_ref().unwrap().controller().truncate(h);
+                self.truncated = true;
                 let d = self.observe();
                 self.out.op(line, &format!("{} {}", if r.is_ok() { "ok" } else { "err" }, d));
                 self.out.count("truncate");
@@ -950,6 +966,10 @@ fn gen_case(ex: &mut Exec, rng: &mut Rng, case: u64, target_blocks: u64) {
             let d = rng.range(1, tipn.min(10));
             let t = ex.ancestor(tip, d);
             ex.apply(&format!("truncate {}", t));
+            // the cut-off branch stays stored (verified): it may be extended later
+            if rng.chance(1, 2) {
+                tips.push(tip);
+            }
         } else {
             let k = rng.below(ex.n_state_ops() as u64);
             ex.apply(&format!("snap {}", k));
